@@ -45,7 +45,7 @@ Dist1(a, b) ==
   \/ Len(b) = Len(a) + 1 /\ \E i \in 1..Len(b) : SubSeq(b, 1, i - 1) \o SubSeq(b, i + 1, Len(b)) = a
 
 Requests == IF NameU = {} THEN Names \cup (AliasU \ {<<>>})
-            ELSE Names \cup (AliasU \ {<<>>}) \cup {r \in SeqsUpTo(MaxLen) : \E n \in NameU : Dist1(n, r)}
+            ELSE Names \cup (AliasU \ {<<>>}) \cup {r \in SeqsUpTo(MaxLen) : Len(r) <= 3 \/ \E n \in NameU : Dist1(n, r)}
 
 \* the suggestion is a spelling heuristic; the specification only fixes it for ordinary names:
 \* at least four characters, all of them letters
